@@ -91,6 +91,23 @@ func (c *Ctx) r191(proxy, hasPerm *ssa.Function) {
 		c.und(rule, "PermissionedProxy: wrapper", c.P.pos(proxy.Pos()), "no function literal given to reflect.MakeFunc found")
 		return
 	}
+	// whatever is installed into the proxy struct is such a wrapper: a method wired directly to the
+	// implementation (a "fast path" for default-permitted methods) is never checked against what the
+	// caller's token actually carries
+	for _, fn := range c.region(proxy) {
+		allInstrsRaw(fn, func(in ssa.Instruction) {
+			ci, ok := in.(ssa.CallInstruction)
+			if !ok || calleeName(ci) != "(reflect.Value).Set" {
+				return
+			}
+			construct := fmt.Sprintf("%s: function installed into the proxy", fname(fn))
+			good := c.allOrigins(ci.Common().Args[1], func(a apath) bool {
+				call, ok := a.Root.(*ssa.Call)
+				return ok && len(a.Fields) == 0 && calleeName(call) == "reflect.MakeFunc"
+			})
+			c.check(good, rule, construct, c.ipos(in), "a reflect.MakeFunc wrapper", "a proxy method is wired to something other than the permission-checking wrapper (e.g. straight to the implementation when the defaults allow it): a caller whose attached permission set lacks the required permission still runs it — an attached set must be used exactly as attached, even when it grants less than the defaults")
+		})
+	}
 	for _, w := range wrappers {
 		ndel := 0
 		allInstrs(w, func(in ssa.Instruction) {
